@@ -230,7 +230,7 @@ func (g *Gen) script(ci int, self common.Address, maxInit int, isInit bool) Scri
 			return s
 		case 10:
 			k := []string{"rv", "iv", "st"}[g.r.Intn(3)]
-			if isInit && k == "iv" {
+			if (isInit || strings.Contains(g.w.fork.label, "@026")) && k == "iv" {
 				k = "rv" // CREATE forwards all gas: an INVALID in creation code would starve what follows
 			}
 			s = append(s, Act{Kind: k})
@@ -371,7 +371,7 @@ func (g *Gen) setup(withContracts bool) {
 	// lower ids; K0..K2 may call higher-indexed contracts and create anything.
 	install := func(i int, maxInit int) {
 		sc := g.script(i, contracts[i], maxInit, false)
-		if i == 2 && g.r.Chance(2, 3) && w.flags.P014 && w.flags.P012 {
+		if i == 2 && g.r.Chance(2, 3) && w.flags.P012 {
 			// the staker: a contract that may become the account of a miner and uses the stake opcodes
 			ops := g.stakeOps()
 			pos := 0
@@ -407,7 +407,7 @@ func (g *Gen) setup(withContracts bool) {
 	// K0 is never a callee of other code; it alone may use AUTH/AUTHCALL (the authority's nonce is
 	// baked into its code before every block, so it runs at most once per block)
 	sc := g.script(0, contracts[0], nInit, false)
-	if g.r.Bool() && w.flags.P014 {
+	if g.r.Bool() {
 		var to common.Address
 		switch g.r.Intn(3) {
 		case 0:
@@ -501,6 +501,9 @@ func (w *World) accountTaken(a common.Address) bool {
 	}
 	for _, q := range w.queue {
 		if strings.HasPrefix(q.line, "tx apply ") && strings.Fields(q.line)[6] == hexAddr(a) {
+			return true
+		}
+		if strings.HasPrefix(q.line, "tx chacc ") && strings.Fields(q.line)[4] == hexAddr(a) {
 			return true
 		}
 	}
@@ -609,6 +612,36 @@ func (g *Gen) minerTx() {
 		}
 		amt := []string{"1", "100", "400", "1600", "2000", "18446744073709551615", "0", "abc", "-1", "", "18446744073709551616", "3"}[g.r.Intn(12)]
 		w.QueueRefund(src, seq, amt, g.r.Chance(7, 8))
+	case 16, 17:
+		// change account: mostly by the current account of a known miner, to a free / taken / same account
+		seq := known()
+		src := g.pickEOA()
+		if m := w.findMiner(seq); m != nil && g.r.Chance(5, 6) {
+			src = m.account
+		}
+		to := g.pickEOA()
+		switch g.r.Intn(6) {
+		case 0:
+			to = src
+		case 1:
+			to = contracts[2]
+		}
+		if w.accountTaken(to) && to != src && g.r.Chance(2, 3) {
+			for _, a := range eoas {
+				if !w.accountTaken(a) {
+					to = a
+					break
+				}
+			}
+		}
+		for _, q := range w.queue {
+			f := strings.Fields(q.line)
+			if (f[1] == "apply" && f[6] == hexAddr(to)) || (f[1] == "chacc" && f[4] == hexAddr(to)) {
+				g.operatorTx() // never two miners onto one account within a block (the account iterator would not see the first)
+				return
+			}
+		}
+		w.QueueChange(src, seq, to)
 	default:
 		src := g.pickEOA()
 		if len(w.miners) > 0 && g.r.Chance(4, 5) {
@@ -623,7 +656,11 @@ func (g *Gen) stakeOps() Script {
 	half := new(big.Int).Div(oneRPG, big.NewInt(2))
 	vals := []*big.Int{half, rpg(1), new(big.Int).Add(rpg(1), new(big.Int).Mul(big.NewInt(9), new(big.Int).Div(oneRPG, big.NewInt(10)))),
 		rpg(3), rpg(400), rpg(2000), big.NewInt(1), big.NewInt(0),
-		new(big.Int).Mul(new(big.Int).Lsh(big.NewInt(1), 64), oneRPG)}
+		new(big.Int).Mul(new(big.Int).Lsh(big.NewInt(1), 64), oneRPG),
+		// around the uint64 boundary of the whole-token truncation: 2^64-1 tokens, one wei below 2^64 tokens
+		new(big.Int).Mul(new(big.Int).Sub(new(big.Int).Lsh(big.NewInt(1), 64), big.NewInt(1)), oneRPG),
+		new(big.Int).Sub(new(big.Int).Mul(new(big.Int).Lsh(big.NewInt(1), 64), oneRPG), big.NewInt(1)),
+		new(big.Int).Sub(oneRPG, big.NewInt(1)), new(big.Int).Add(oneRPG, big.NewInt(1))}
 	var s Script
 	n := 1 + g.r.Intn(3)
 	for i := 0; i < n; i++ {
